@@ -85,6 +85,7 @@ type vEdge struct {
 	Notify bool   `json:"notify"`
 	Claim  vClaim `json:"claim"`
 	Node   string `json:"node"`
+	SrcOk  bool   `json:"srcOk"`
 }
 
 // ---------------------------------------------------------------------------
@@ -502,6 +503,19 @@ func (in *vInst) act(e *vEdge) string {
 	switch e.Kind {
 	case "reap":
 		m.resetNodes()
+	case "udpalive":
+		cl := e.Claim
+		a := &alive{Incarnation: c.incMap(cl.Inc), Node: cl.Node, Addr: c.addr[cl.Addr], Port: uint16(cl.Port),
+			Meta: c.meta[cl.Meta], Vsn: c.vsn(cl.Vsn)}
+		buf, err := encode(aliveMsg, a, false)
+		if err != nil {
+			return "encode: " + err.Error()
+		}
+		src := &net.UDPAddr{IP: net.ParseIP("10.9.9.9"), Port: 7946}
+		if !e.SrcOk {
+			src = &net.UDPAddr{IP: net.ParseIP("172.16.3.4"), Port: 7946}
+		}
+		m.handleAlive(buf.Bytes()[1:], src)
 	case "stalefire":
 		tm, ok := in.stale[e.Node]
 		if !ok {
